@@ -58,14 +58,15 @@ def extract(repo, config, log=None):
     os.makedirs(WORK, exist_ok=True)
     th = tree_hash(repo)
     out = os.path.join(WORK, 'facts', th, config)
-    lock = open(os.path.join(WORK, 'extract.lock'), 'w')
+    tgt_name = os.environ.get('SAVF_TARGET', 'target')
+    lock = open(os.path.join(WORK, 'extract-%s.lock' % tgt_name), 'w')
     fcntl.flock(lock, fcntl.LOCK_EX)
     try:
         ok = all(os.path.exists(os.path.join(out, c + '.json')) for c in CRATES) and os.path.exists(os.path.join(out, 'DONE'))
         if ok:
             return out, th, False
         ensure_driver()
-        tgt = os.path.join(WORK, 'target')
+        tgt = os.path.join(WORK, tgt_name)
         t0 = time.time()
         r = subprocess.run([os.path.join(VERIF, 'savf', 'extract.sh'), repo, out, tgt] + CONFIGS[config],
                            stdout=subprocess.PIPE, stderr=subprocess.STDOUT, text=True)
@@ -84,15 +85,18 @@ def extract(repo, config, log=None):
 
 
 def _gc_facts(keep):
+    """drop fact directories of other trees that are older than an hour (beyond the 40 most recent):
+    concurrent runs on scratch copies must not lose their facts"""
     base = os.path.join(WORK, 'facts')
+    now = time.time()
     try:
         ents = [(os.path.getmtime(os.path.join(base, d)), d) for d in os.listdir(base) if d != keep]
     except OSError:
         return
     ents.sort()
-    # keep the 6 most recent other trees (mutant runs), drop the rest
-    for _, d in ents[:-6]:
-        shutil.rmtree(os.path.join(base, d), ignore_errors=True)
+    for mt, d in ents[:-40]:
+        if now - mt > 3600:
+            shutil.rmtree(os.path.join(base, d), ignore_errors=True)
 
 
 class Ob:
